@@ -121,7 +121,9 @@ class WalkSys:
 
     def task_reset(self):
         from trie import HexaryTrie
-        HexaryTrie._cached_create_node_to_db_mapping.cache_clear()
+        clear = getattr(getattr(HexaryTrie, "_cached_create_node_to_db_mapping", None), "cache_clear", None)
+        if clear is not None:  # a memo of a pure function; cleared between tasks only to keep workers independent
+            clear()
 
     def events(self, snap, model):
         trie, fog, cache, met, stable, ever, nmut, reset = snap
